@@ -1,1 +1,213 @@
-From Fit Require Import LossOps GenLosses FitModel GenFitFacts.
+(** C20 -- Fitting: losses measure discrepancy; fits are honest and spare the input.
+
+    ONLY theorem statements (written out in full), each closed by [exact <lemma>] (the two
+    [..._pinned] theorems by computation) and followed by [Print Assumptions].
+
+    [gen_losses] / [loss_*] are REGENERATED expression-for-expression from
+    /repo/src/mxlpy/fit/losses.py, [gen_fit_facts] / [gen_source_digests] from fit/abstract.py,
+    fit/routines.py and minimizers/_scipy.py, on every run.  The loss laws are theorems about the
+    regenerated definitions at Coq's real numbers; the fit theorems hold for EVERY numeric carrier,
+    every settings object, every minimiser (strategy tree) and every history of evaluations. *)
+From Coq Require Import List ZArith NArith QArith Reals String.
+From MxlBase Require Import ListX.
+From Fit Require Import LossOps GenLosses FitModel GenFitFacts FitExec LossProofs FitProofs FitWitness.
+Import ListNotations.
+Open Scope string_scope.
+
+(** the shipped losses are exactly these seven formulas (a changed, added or removed loss breaks this) *)
+Theorem C20_losses_pinned :
+  gen_untranslatable = [] /\
+  forall (T : Type) (O : num_ops T),
+    gen_losses O =
+    [ ("cosine_similarity", fun y_pred y_true => o_opp O (o_mul O (vnorm2 O y_pred) (vnorm2 O y_true)));
+      ("mae", fun y_pred y_true => vmean O (vmap (o_abs O) (vbin (o_sub O) y_true y_pred)));
+      ("mean", fun y_pred y_true => vmean O (vbin (o_sub O) y_pred y_true));
+      ("mean_absolute_percentage", fun y_pred y_true =>
+         o_mul O (o_ofQ O (100 # 1)) (vmean O (vmap (o_abs O) (vbin (o_div O) (vbin (o_sub O) y_true y_pred) y_pred))));
+      ("mean_squared", fun y_pred y_true => vmean O (vmap (o_sq O) (vbin (o_sub O) y_pred y_true)));
+      ("mean_squared_logarithmic", fun y_pred y_true =>
+         vmean O (vmap (o_sq O) (vbin (o_sub O) (vmap (o_ln O) (vbin_r (o_add O) y_pred (o_ofQ O (1 # 1))))
+                                               (vmap (o_ln O) (vbin_r (o_add O) y_true (o_ofQ O (1 # 1)))))));
+      ("rmse", fun y_pred y_true => o_sqrt O (vmean O (vmap (o_sq O) (vbin (o_sub O) y_pred y_true)))) ].
+Proof. split; [reflexivity | intros; reflexivity]. Qed.
+Print Assumptions C20_losses_pinned.
+
+(** the facts of the fit plumbing the model consults: [_Settings.loss] hands (data, prediction) to the loss,
+    scaled or not; every residual applies y0, then the routed parameters, then the routed variables to the
+    SHARED model, selects the data's names and returns +inf on a failed simulation; every wrapper copies
+    FIRST (default on), routes names by membership, packs (parameters, residual) into Fit; the SciPy wrapper
+    packs by position with default bounds (1e-6, 1e6) *)
+Theorem C20_fit_facts_pinned :
+  gen_fit_facts =
+  mkFitFacts DataFirst DataFirst true
+    (mkResidualFacts [UpdY0; UpdPars; UpdVars] SelDataIndex FailInf true true)
+    (mkResidualFacts [UpdY0; UpdPars; UpdVars] SelDataColumns FailInf true true)
+    (mkResidualFacts [UpdY0; UpdPars; UpdVars] SelDataColumns FailInf true true)
+    (mkWrapperFacts true true true true true true true)
+    (mkWrapperFacts true true true true true true true)
+    (mkWrapperFacts true true true true true true true)
+    (1 # 1000000) (1000000 # 1) true true true.
+Proof. vm_compute. reflexivity. Qed.
+Print Assumptions C20_fit_facts_pinned.
+
+(** digests of the normalised source (docstrings / comments / formatting removed) of every modelled function *)
+Theorem C20_source_digests_pinned :
+  gen_source_digests =
+  [ ("_Settings", "7ef6c219b20dd642");
+    ("steady_state_residual", "891bbf419b57fa68");
+    ("time_course_residual", "e3933b0eeb64114b");
+    ("protocol_time_course_residual", "8dd50a22a156e572");
+    ("steady_state", "9f1c585c35774991");
+    ("time_course", "00cfdee8535ecb01");
+    ("protocol_time_course", "cce95a4a460e0b60");
+    ("_pack_updates", "b465f9816022f54a");
+    ("LocalScipyMinimizer.__call__", "c44182df70fff738") ].
+Proof. vm_compute. reflexivity. Qed.
+Print Assumptions C20_source_digests_pinned.
+
+(** FULL statement (false of the code, see the two [_refuted] theorems):
+      forall n L, In (n, L) (gen_losses ROps) -> (forall d p, L d d <= L d p) /\ (size law).
+    PROVED for five of the seven shipped losses; [mean] and [cosine_similarity] are recorded findings.
+
+    law 1 -- smallest when the prediction reproduces the data: in the order the residuals use
+    (data first), in the documented order (prediction first), and the minimum is 0 *)
+Theorem C20_loss_min_at_data_partial :
+  forall (n : string) (L : list R -> list R -> R),
+    In (n, L) (gen_losses ROps) -> ~ (n = "mean" \/ n = "cosine_similarity") ->
+    forall d p : list R, (L d d <= L d p /\ L d d <= L p d /\ L d d = 0)%R.
+Proof. exact loss_min_at_data. Qed.
+Print Assumptions C20_loss_min_at_data_partial.
+
+(** law 1 as the residual functions apply it ([_Settings.loss] of the current source, with or without
+    standard scaling, frames of any shape): defined, 0 at prediction = data, never below 0 *)
+Theorem C20_residual_loss_min_at_data_partial :
+  forall (n : string) (L : list R -> list R -> R),
+    In (n, L) (gen_losses ROps) -> ~ (n = "mean" \/ n = "cosine_similarity") ->
+    forall (standard_scale : bool) (data pred : list (list R)),
+      settings_loss ROps gen_fit_facts L standard_scale data data = Some 0%R
+      /\ exists v, settings_loss ROps gen_fit_facts L standard_scale data pred = Some v /\ (0 <= v)%R.
+Proof.
+  exact (fun n L H Hk => settings_loss_min_at_data gen_fit_facts n L H Hk
+           (f_equal ff_args_unscaled C20_fit_facts_pinned) (f_equal ff_args_scaled C20_fit_facts_pinned)).
+Qed.
+Print Assumptions C20_residual_loss_min_at_data_partial.
+
+(** law 2 -- a prediction is not rewarded merely for being large: scaling an overshooting prediction
+    (each entry at or beyond the datum, on the same side of 0; for the logarithmic loss: nonnegative
+    data) by any factor >= 1 never lowers the loss *)
+Theorem C20_loss_not_rewarding_size_partial :
+  forall (n : string) (L : list R -> list R -> R),
+    In (n, L) (gen_losses ROps) -> ~ (n = "mean" \/ n = "cosine_similarity") ->
+    forall (d p : list R) (lam : R),
+      Forall2 (fun pi di => (0 <= di <= pi)%R \/ (n <> "mean_squared_logarithmic" /\ (pi <= di <= 0)%R)) p d ->
+      (1 <= lam)%R ->
+      (L d p <= L d (map (Rmult lam) p))%R.
+Proof. exact loss_not_rewarding_size. Qed.
+Print Assumptions C20_loss_not_rewarding_size_partial.
+
+(** the signed [mean] violates both laws (finding c20-mean-signed) *)
+Theorem C20_loss_laws_refuted_mean :
+  exists (d p : list R) (lam : R),
+    Forall2 (fun pi di => (0 <= di <= pi)%R) p d /\ (1 <= lam)%R /\
+    (loss_mean ROps d p < loss_mean ROps d d)%R /\
+    (loss_mean ROps d (map (Rmult lam) p) < loss_mean ROps d p)%R.
+Proof. exact mean_refuted. Qed.
+Print Assumptions C20_loss_laws_refuted_mean.
+
+(** [cosine_similarity] (minus the product of the norms) violates both laws (finding c20-cosine-rewards-size) *)
+Theorem C20_loss_laws_refuted_cosine :
+  exists (d p : list R) (lam : R),
+    Forall2 (fun pi di => (0 <= di <= pi)%R) p d /\ (1 <= lam)%R /\
+    (loss_cosine_similarity ROps d p < loss_cosine_similarity ROps d d)%R /\
+    (loss_cosine_similarity ROps d (map (Rmult lam) p) < loss_cosine_similarity ROps d p)%R.
+Proof. exact cosine_refuted. Qed.
+Print Assumptions C20_loss_laws_refuted_cosine.
+
+(** each residual equals the chosen loss between the data and the model's prediction at the candidate
+    values: once the candidate is written into the model, the simulation produced rows and the data's
+    names were selected from them, the value returned is [loss (data, prediction)] -- on standard-scaled
+    data and prediction when scaling is on *)
+Theorem C20_residual_is_loss_of_prediction :
+  forall (T : Type) (O : num_ops T) (k : fit_kind) (S : settings) (st : mstate) (u : list (name * T))
+         (st1 st2 : mstate) (rows : list (Q * list (name * T))) (pred : list (list T)),
+    apply_phases S u [UpdY0; UpdPars; UpdVars] st = (st1, None) ->
+    simulate O k S st1 = (st2, SimRows rows) ->
+    prediction (match k with KSteady => SelDataIndex | _ => SelDataColumns end) k S rows = inl (Some pred) ->
+    residual_step O gen_fit_facts k S st u =
+      (st2, RVal (if s_scale S
+                  then s_loss S (concat (scale_frame O (s_data S) (s_data S))) (concat (scale_frame O (s_data S) pred))
+                  else s_loss S (concat (s_data S)) (concat pred))).
+Proof. exact (residual_structure_expected gen_fit_facts C20_fit_facts_pinned). Qed.
+Print Assumptions C20_residual_is_loss_of_prediction.
+
+(** the residual functions mutate one shared model, yet the residual at a candidate does not depend on
+    the candidates evaluated before: after ANY history [us] of calls on the shared settings object the
+    residual at [u] is the residual of a pristine model at [u] (steady state, time course and protocol) *)
+Theorem C20_residual_history_independent :
+  forall (T : Type) (O : num_ops T) (k : fit_kind) (S : settings) (st0 : mstate)
+         (us : list (list (name * T))) (u : list (name * T)),
+    snd (residual_step O gen_fit_facts k S
+           (fold_left (fun st u' => fst (residual_step O gen_fit_facts k S st u')) us st0) u)
+    = snd (residual_step O gen_fit_facts k S st0 u).
+Proof. exact (fun T O k S => residual_history_independent O gen_fit_facts k S). Qed.
+Print Assumptions C20_residual_history_independent.
+
+(** the reported loss equals the loss recomputed at the reported parameters on the caller's pristine
+    model -- for every minimiser that answers a value it observed at the parameters it answers *)
+Theorem C20_reported_loss_is_loss_at_reported :
+  forall (T : Type) (O : num_ops T) (k : fit_kind) (S : settings) (as_deepcopy : option bool)
+         (caller : mstate) (p0 : list (name * T)) (minimiser : list (name * T) -> strat)
+         (caller_after fit_model : mstate) (best_pars : list (name * T)) (loss : T),
+    honest [] (minimiser p0) ->
+    fit O gen_fit_facts k S as_deepcopy caller p0 minimiser = (caller_after, FitOk fit_model best_pars loss) ->
+    snd (residual_step O gen_fit_facts k (route S caller p0) caller best_pars) = RVal loss.
+Proof. exact (fun T O => fit_reported_loss O gen_fit_facts). Qed.
+Print Assumptions C20_reported_loss_is_loss_at_reported.
+
+(** never worse than the starting point: for every minimiser that first evaluates [p0] and answers
+    nothing worse (w.r.t. any relation [le]) than what it observed there, the reported loss is [le] the
+    loss of the pristine model at [p0] (or that loss is +inf) *)
+Theorem C20_not_worse_than_start :
+  forall (T : Type) (O : num_ops T) (le : T -> T -> Prop) (k : fit_kind) (S : settings) (as_deepcopy : option bool)
+         (caller : mstate) (p0 : list (name * T)) (continue_with : rloss -> strat)
+         (caller_after fit_model : mstate) (best_pars : list (name * T)) (loss : T),
+    (forall b, leaves_le le b (continue_with (RVal b))) ->
+    fit O gen_fit_facts k S as_deepcopy caller p0 (fun p => Ask p continue_with) = (caller_after, FitOk fit_model best_pars loss) ->
+    snd (residual_step O gen_fit_facts k (route S caller p0) caller p0) = RInf
+    \/ exists b, snd (residual_step O gen_fit_facts k (route S caller p0) caller p0) = RVal b /\ le loss b.
+Proof. exact (fun T O => fit_not_worse_than_start O gen_fit_facts). Qed.
+Print Assumptions C20_not_worse_than_start.
+
+(** with copying enabled (explicitly or by default) the caller's model is left unchanged, whatever the
+    minimiser does and however the fit ends *)
+Theorem C20_input_untouched :
+  forall (T : Type) (O : num_ops T) (k : fit_kind) (S : settings) (as_deepcopy : option bool)
+         (caller : mstate) (p0 : list (name * T)) (minimiser : list (name * T) -> strat),
+    as_deepcopy = None \/ as_deepcopy = Some true ->
+    fst (fit O gen_fit_facts k S as_deepcopy caller p0 minimiser) = caller.
+Proof. exact (input_untouched_expected gen_fit_facts C20_fit_facts_pinned). Qed.
+Print Assumptions C20_input_untouched.
+
+(** ... and the guard is needed: without copying there are fits after which the caller's model differs *)
+Theorem C20_without_copy_input_changes :
+  exists (k : fit_kind) (S : settings) (caller : mstate) (p0 : list (name * oQ)) (minimiser : list (name * oQ) -> strat),
+    fst (fit QoOps gen_fit_facts k S (Some false) caller p0 minimiser) <> caller.
+Proof. exact (without_copy_input_changes gen_fit_facts C20_fit_facts_pinned). Qed.
+Print Assumptions C20_without_copy_input_changes.
+
+(** LocalScipyMinimizer's name <-> position packing keeps an honest positional optimiser honest *)
+Theorem C20_scipy_packing_honest :
+  forall (T : Type) (names : list name) (s : vstrat) (seen : list (list T * rloss)),
+    vhonest seen s ->
+    honest (map (fun e => (combine names (fst e), snd e)) seen) (lift_vstrat names s).
+Proof. exact (fun T => lift_honest (T:=T)). Qed.
+Print Assumptions C20_scipy_packing_honest.
+
+(** non-vacuity: an honest minimiser, a real model (dx/dt = k_in - k_out x), data generated by it; the fit
+    finds k_in = 2 with loss 0 from the start k_in = 1 and leaves the caller's model alone *)
+Example C20_nonvacuous :
+  honest [] (probe_minimiser ex_p0) /\
+  fit QoOps expected_fit_facts KTimeCourse (ex_settings (loss_mean_squared QoOps)) None ex_caller ex_p0 probe_minimiser
+  = (ex_caller, FitOk (mkState (al [(1%N, 1 # 2); (2%N, 1 # 2)]) (al [(10%N, 1%Q)])) (al [(1%N, 2%Q)]) (Some 0%Q)).
+Proof. exact nonvacuous_fit. Qed.
+Print Assumptions C20_nonvacuous.
